@@ -1830,7 +1830,11 @@ func (m *Machine) ParseStates(states S) S {
 	}
 
 	if dups {
-		return slicesUniq(states)
+		// only the known ones
+		return slicesFilter(slicesUniq(states), func(name string, _ int) bool {
+			_, ok := seen[name]
+			return ok
+		})
 	}
 	return slices.Collect(maps.Keys(seen))
 }
